@@ -374,7 +374,7 @@ def dev(name, twin=False):
     extra = []
     for a in sys.argv:
         if a.startswith('--fn='): extra = ['--verify-function', a[5:]]
-    r = V.run(out, extra=extra)
+    r = V.run(out, extra=extra, rlimit=20)
     ver, unsup = V.classify(r.diags, gen)
     print(f'verus: verified={r.verified} errors={r.errors} wall={r.wall:.1f}s smt={r.smt_ms}ms results={r.have_results}')
     for d in unsup:
